@@ -22,6 +22,13 @@ CFG = dict(
          "histories of save/delete/menu requests on an absent / existing (duplicate names possible) / corrupt settings file, observed through "
          "readSettings after every step; (d) conc: 2-5 concurrent save/delete requests on one file, final file compared with all sequential "
          "orders; (e) fs (python hook): 5 saves traced with strace, killed at every system call and failed at every system call. "
+         "(f) failed edits followed by more work IN THE SAME PROCESS: seq histories contain save!/delete! requests whose write to disk fails "
+         "(RLIMIT_FSIZE, EFBIG) and refused requests, followed by menu renders and further saves/deletes (stream seq-failed-edit: file with "
+         "3-4 named configs, 1-2 failing edits of existing names, then 1-3 more requests); every step is observed twice: through readSettings "
+         "and by an independent JSON decode of the file, which must agree; fs-edits (python hook): one process does overwrite/delete/append, "
+         "with each system call of its writeSettings part failed by strace in turn, then menu/save/delete/save. "
+         "(g) burst: the FIRST edits a never-edited settings file sees arrive simultaneously (spin barrier, 3-8 requests with distinct names, "
+         "half through the HTTP handlers); the final file is compared up to order with the sequential result. "
          "distinct = sha256 of the input term; non-trivial = URL changed (url), non-empty query (apply), at least one successful edit (seq), always (conc, fs)",
     spec_what="saved configuration / URL round trip / settings history / crash point / concurrent edit differs from the C19 statement",
     trusted_base=["translator gen-configtable (dumps configFields incl. a behavioural probe of resetTransient)",
@@ -30,6 +37,7 @@ CFG = dict(
                   "net/url Values.Encode / URL.Query round trip",
                   "strace 6.1 log of the harness child (system calls -> M_Fs ops by lib/c19_fs.py); rename(2) atomic, page cache survives a kill"],
     assumptions=["crash = the process is killed or a system call fails; power loss (fsync ordering) is not modelled",
+                 "in-process write failures are produced with RLIMIT_FSIZE=8 + ignored SIGXFSZ (write(2) fails with EFBIG), other failure points with strace error injection",
                  "float options are compared as numbers (-0 = 0: omitempty drops -0 and it is read back as 0)",
                  "concurrent requests: the final file is compared with all sequential orders (2-5 requests); the theorem covers all schedules of the mutex model"],
     shard=100,
